@@ -4,7 +4,7 @@
 cd "$(dirname "$0")/.."
 for d in seeded/*/; do
   n=$(basename "$d"); id=${n%%-*}
-  [ -n "${1:-}" ] && [ "$1" != "$n" ] && continue
+  [ -n "${1:-}" ] && [[ "$n" != $1 ]] && continue
   s=$(date +%s)
   out=$(timeout 1500 tools/try_seed.sh "$d/patch.diff" "$id" quick 2>&1); rc=$?
   e=$(date +%s)
